@@ -69,7 +69,10 @@ def build_prog(case):
     aux = case.get("aux")
     uses = ([{"host": aux["host"], "as": aux.get("as")}] + list(aux.get("more") or [])) if aux else []
     for f in case["frames"]:
-        st = [P.rec(f["name"] + ".pre", "precur"), P.rec(f["name"] + ".en", "enter")]
+        st = [P.rec(f["name"] + ".pre", "precur"), P.rec(f["name"] + ".en", "enter"), P.rec(f["name"] + ".rc", "recur")]
+        if case.get("done") == f["name"]:
+            # the framer reports completion and keeps running: its clocks go on
+            st.append({"v": "done", "who": ["me"], "ctx": "enter"})
         for u in uses:
             if u["host"] == f["name"]:
                 a = {"v": "aux", "aux": "x"}
@@ -79,10 +82,17 @@ def build_prog(case):
         st += [clause_stmt(cl) for cl in f["clauses"]]
         frames.append(P.frame(f["name"], st, over=f.get("over"), next=f.get("next")))
     framers = [P.framer("f", frames, period=case.get("fperiod"))]
+    if case.get("restart"):
+        # another framer bids `start f` while f is running: documented as changing nothing
+        framers.append(P.framer("bz", [P.frame("z0", [P.go("z1", [P.cmp("recurred", ">=", case["restart"])])]),
+                                       P.frame("z1", [{"v": "bid", "ctl": "start", "who": ["f"], "ctx": None}, P.go("z2", [])]),
+                                       P.frame("z2", [])]))
     if aux:
         aframes = []
         for f in aux["frames"]:
-            st = [P.rec(f["name"] + ".pre", "precur"), P.rec(f["name"] + ".en", "enter")]
+            st = [P.rec(f["name"] + ".pre", "precur"), P.rec(f["name"] + ".en", "enter"), P.rec(f["name"] + ".rc", "recur")]
+            if aux.get("done") == f["name"]:
+                st.append({"v": "done", "who": ["me"], "ctx": "enter"})
             st += [clause_stmt(cl) for cl in f["clauses"]]
             aframes.append(P.frame(f["name"], st, over=f.get("over"), next=f.get("next")))
         framers.append(P.framer("x", aframes, sched="moot" if aux.get("as") else "aux"))
@@ -103,9 +113,11 @@ class Clock(object):
         self.S, self.clauses, self.who = S, clauses, who
         self.active, self.c, self.rec = None, None, 0
         self.ntrans = self.nevals = 0
+        self.passes = 0           # completed recur passes of the active frame since the outline last changed
 
     def enter_first(self, k):
         self.active, self.c, self.rec = self.S.first, k, 0
+        self.passes = 0
 
 
 def evaluate(ctx, st, k, evs, Pf, exact, case, wit):
@@ -127,6 +139,9 @@ def evaluate(ctx, st, k, evs, Pf, exact, case, wit):
         ctx.check(ok_el, key("elapsed-wrong-at-evaluation"),
                   "tick %d %sframe %s: elapsed %r, store time since last outline change %r" % (k, who, e["frame"], e["elapsed"], float(el)),
                   lambda: wit({"tick": k, "event": e, "last_change_tick": c}))
+        ctx.check(e["recurred"] == st.passes, key("recurred-differs-from-completed-iterations"),
+                  "tick %d %sframe %s: recurred %r, the frame's recur actions ran %d times since the last outline change" % (
+                      k, who, e["frame"], e["recurred"], st.passes), lambda: wit({"tick": k, "event": e, "last_change_tick": c}))
         ctx.check(e["recurred"] == rec, key("recurred-wrong-at-evaluation"),
                   "tick %d %sframe %s: recurred %r, iterations since last outline change %d" % (k, who, e["frame"], e["recurred"], rec),
                   lambda: wit({"tick": k, "event": e, "last_change_tick": c}))
@@ -186,10 +201,19 @@ def evaluate(ctx, st, k, evs, Pf, exact, case, wit):
         if cl.get("far") == "me":
             ctx.hit("forced_reentry")
         st.active, st.c, st.rec = exp_far, k, 0
+        st.passes = 0
         st.ntrans += 1
         return ex, en, rx
     ctx.check(True, "ok")
     return None
+
+
+def count_passes(F, fname, evs, entries):
+    """recur passes completed in this run (they come after the transitions of the run), per clock, for the frame that is
+    active now"""
+    for st, name in [(F, fname)] + [(e_["clock"], e_["name"]) for e_ in entries]:
+        if st.active is not None:
+            st.passes += sum(1 for e in evs if e["framer"] == name and e["ctx"] == "recur" and e["frame"] == st.active)
 
 
 def check_case(ctx, case):
@@ -209,11 +233,11 @@ def check_case(ctx, case):
     aux = case.get("aux")
     entries = aux_entries(case)
     for en_ in entries:
-        en_["clock"] = Clock(P.Static(framers[1]), {f["name"]: f["clauses"] for f in aux["frames"]}, "x")
+        en_["clock"] = Clock(P.Static([fr for fr in framers if fr["name"] == "x"][0]), {f["name"]: f["clauses"] for f in aux["frames"]}, "x")
     wit = lambda extra=None: {"program": text, "P": case["P"], "detail": extra}
     exact = dyadic(Pf)
     status = "stopped"
-    known = set(["f"] + [e_["name"] for e_ in entries])
+    known = set(["f", "bz"] + [e_["name"] for e_ in entries])
     for s in res.sends:
         if s["caller"] != "run" or s["tasker"] != "f":
             continue
@@ -239,6 +263,11 @@ def check_case(ctx, case):
                     got = [e["frame"] for e in evs[cut:] if e["framer"] == en_["name"] and e["ctx"] == "enter"]
                     ctx.check(got == A.S.outline(A.active), "aux/enter-outline-with-host", "aux entered %s with its host frame, outline is %s" % (
                         got, A.S.outline(A.active)), wit)
+            count_passes(F, "f", evs, entries)
+            continue
+        if s["control"] == "start" and status in ("started", "running"):
+            ctx.hit("redundant_starts")
+            count_passes(F, "f", evs, entries)      # (whatever the framer does with it: iterations are iterations)
             continue
         if s["control"] != "run" or status not in ("started", "running"):
             continue
@@ -278,6 +307,7 @@ def check_case(ctx, case):
                         got, A.S.outline(A.active)), wit)
                 elif any(h in rx for h in en_["hosts"]) and A.active is not None:
                     ctx.hit("host_kept_across_main_transition")
+        count_passes(F, "f", evs, entries)
     # active frame agreement at the end
     fin = res.ticks[-1]["framers"].get("f") if res.ticks and res.ticks[-1]["framers"] else None
     if fin and fin["status"] in ("started", "running"):
@@ -354,6 +384,8 @@ def gen_random(rng, Pstr):
         # or the same original aux under a frame outside the first host's outline, e.g. the frame a timeout leads to
         import random as _random
         r2 = _random.Random(repr(case))
+        if r2.random() < 0.35:
+            case["aux"]["done"] = r2.choice(anames)       # the auxiliary reports completion in one of its frames and runs on
         if r2.random() < 0.6:
             over = {f["name"]: f.get("over") for f in frames}
             h1 = case["aux"]["host"]
@@ -367,6 +399,11 @@ def gen_random(rng, Pstr):
                 order = [f["name"] for f in frames]
                 near = [c for c in cands if abs(order.index(c) - order.index(h1)) == 1]
                 case["aux"]["more"] = [{"host": r2.choice(near) if near and r2.random() < 0.6 else r2.choice(cands), "as": a2}]
+    r3 = __import__("random").Random(repr((case["P"], case["ticks"], len(frames))))
+    if r3.random() < 0.3:
+        case["done"] = r3.choice([f["name"] for f in frames])         # the framer itself reports completion and runs on
+    if r3.random() < 0.35 and not case.get("fperiod"):
+        case["restart"] = r3.randint(2, 9)                            # another framer bids `start f` at that tick
     return case
 
 
@@ -391,6 +428,7 @@ def run(ctx):
     ctx.floor("clock_evaluations", 3000)
     ctx.floor("fired_timeout", 100)
     ctx.floor("fired_repeat", 100)
+    ctx.floor("redundant_starts", 50)
     ctx.floor("evaluations_with_two_clones_entered_at_different_times", 10)
     ctx.floor("original_aux_handed_to_the_next_frame", 10)
     ctx.floor("fired_go_el", 50)
